@@ -10,17 +10,77 @@ Definition closed (s : str) : bool := is_nil s || ends_nl s.
 Definition rest_colon (f : field) : bool :=
   match f_rest f with c :: _ => (c =? COLON)%N | [] => false end.
 
+(** ** the line structure of one field: what the parser can have produced
+
+    comment: complete lines, each starting with '#'; name: field-name characters; the rest: the
+    remainder of the field line from the colon on, then continuation lines with comment lines
+    only between them *)
+Definition body_class (l : str) : bool :=
+  match classify true l with LComment | LCont => true | _ => false end.
+Definition cont_class (l : str) : bool :=
+  match classify true l with LCont => true | _ => false end.
+Definition body_ok (others : list str) : bool :=
+  is_nil others
+  || (forallb body_class others
+      && match last_opt others with Some l => cont_class l | None => false end).
+
+Definition name_ok (n : str) : bool :=
+  match n with c :: _ => name_first c && forallb name_char n | [] => false end.
+
+Definition colon_first (s : str) : bool :=
+  match s with c :: _ => (c =? COLON)%N | [] => false end.
+
+Definition comment_wf (c : str) : bool := closed c && forallb starts_hash (lf_lines c).
+
+Definition rest_wf (r : str) : bool :=
+  match lf_lines r with
+  | r1 :: bl => colon_first r1 && body_ok bl
+  | [] => false
+  end.
+
+Definition field_wf (f : field) : bool :=
+  comment_wf (f_comment f) && name_ok (f_name f) && rest_wf (f_rest f).
+
+(** the lines of a field's text *)
+Definition flines (f : field) : list str :=
+  lf_lines (f_comment f)
+  ++ match lf_lines (f_rest f) with r1 :: bl => (f_name f ++ r1) :: bl | [] => [] end.
+
 Definition lnames (fs : list field) : list str := map (fun f => lower (f_name f)) fs.
 Definition nodup_names (fs : list field) : bool := nodupb (lnames fs).
 
-(** ** the paragraph invariant: names unique (case-insensitively), every field has its
-       colon; valid documents only contain the no-duplicates class *)
+(** ** the paragraph invariant: names unique (case-insensitively), every field has its colon *)
 Definition fields_inv (fs : list field) : bool := nodup_names fs && forallb rest_colon fs.
 
+(** ** the duplicate-fields class: the name index and the node list agree *)
+
+(** identities of the nodes whose field name lower-cases to [k], in list order *)
+Definition ids_with (k : str) (o : list (N * field)) : list N :=
+  map fst (filter (fun nf => str_eqb (lower (f_name (snd nf))) k) o).
+
+Fixpoint nodupN (l : list N) : bool :=
+  match l with
+  | [] => true
+  | a :: l' => negb (existsb (N.eqb a) l') && nodupN l'
+  end.
+
+(** node identities distinct and below the allocation counter; index keys distinct; every
+    index entry is the non-empty list of the nodes of that name, in order; every node is indexed *)
+Definition d_wf (d : dpara) : bool :=
+  nodupN (map fst (d_order d))
+  && forallb (fun nf => (fst nf <? d_next d)%N) (d_order d)
+  && nodupb (map fst (d_byname d))
+  && forallb (fun kl => negb (is_nil (snd kl))
+                        && list_eqb N.eqb (snd kl) (ids_with (fst kl) (d_order d))) (d_byname d)
+  && forallb (fun nf => match assoc_get (lower (f_name (snd nf))) (d_byname d) with
+                        | Some _ => true | None => false end) (d_order d).
+
+(** the theorems cover both classes as long as no name is repeated: a paragraph of the
+    duplicate-fields class reaches that state when its duplicates have been deleted *)
 Definition para_inv (p : para) : bool :=
   match p with
   | PN fs => fields_inv fs
-  | PD _ => false
+  | PD d => d_wf d && fields_inv (map snd (d_order d))
   end.
 
 (** valid documents: every paragraph satisfies the paragraph invariant *)
@@ -50,3 +110,7 @@ Fixpoint lines_ok (d : doc) : bool :=
 
 (** validity including the line structure *)
 Definition doc_ok (d : doc) : bool := doc_inv d && lines_ok d.
+
+(** ... and with every field well-formed as above: the domain of the re-reading theorem *)
+Definition para_wf (p : para) : bool := forallb field_wf (para_fields p).
+Definition doc_wf (d : doc) : bool := doc_ok d && forallb para_wf (paras d).
